@@ -54,10 +54,13 @@ def fam_loop():
             r.append(call("AllowUnsafe", b=False))      # saying "no" explicitly must stay "no"
         if unskip: r.append(call("AllowElementsContent", names=["script", "style", "object"]))
         # elements that are allowed through a pattern AND listed in the skip-content set
-        if spaces != comments: r.append(call("SkipElementsContent", names=["custom-x", "x-y", "b", "donn\u00e9es"]))
+        if spaces != comments: r.append(call("SkipElementsContent", names=["custom-x", "x-y", "B", "donn\u00e9es"]))
         # an attribute rule with an empty attribute list on skip-content elements changes nothing
         if spaces and unskip: r.append(AA([], ["object", "title", "blink"]))
         recipes.append(r)
+    # a zero-value Policy{} that names script and style: the deny-list must not depend on how the policy came to be
+    recipes.append([call("ZeroValue"), call("AllowElements", names=["b", "div"]), AA(["type"], ["script"], noattrs=True),
+                    call("AllowElementsMatching", pat="^sty"), AA(["title"], [])])
     # AllowUnsafe(true): script/style may pass and their bodies are written unescaped (conformance only: the
     # listed properties all exclude AllowUnsafe)
     for allowscript, comments in itertools.product([False, True], repeat=2):
@@ -89,7 +92,8 @@ def fam_loop():
             if n not in ("title", "style", "frame", "x-caf\u00e9", "donn\u00e9es"):
                 toks.append(tok("self", n, a))
         toks.append(tok("end", n))
-    toks += [tok("text", d="<i a=1>t&<x"), tok("comment", d="cmt"), tok("comment", d="[CDATA[x]]"), tok("doctype", d="html")]
+    toks += [tok("text", d="<i a=1>t&<x"), tok("comment", d="cmt"), tok("comment", d="[CDATA[x]]"), tok("doctype", d="html"),
+             tok("comment", d="c--><i a=1>")]       # comment data that would end the comment if written unescaped
     return dict(name="loop", recipes=recipes, tokens=toks)
 
 def fam_loopq():
@@ -125,7 +129,7 @@ def fam_link():
                     call("RequireParseableURLs", b=False)])
     recipes.append([call("ZeroValue"), call("RequireNoFollowOnLinks", b=True), call("AddTargetBlankToFullyQualifiedLinks", b=True),
                     AA(["href", "rel", "target"], ["a", "area", "link"]), call("AllowURLSchemes", schemes=["http", "https"])])
-    alpha = (av("href", ["http://e.com/x", "/rel", "javascript:x", "http://e.com/%zz", "/p?a\u00a0#"]) +
+    alpha = (av("href", ["http://e.com/x", "/rel", "javascript:x", "http://e.com/%zz", "/p?a\u00a0#", " //evil.example/x", "\u00a0//evil.example/y"]) +
              av("rel", ["nofollow", "NOFOLLOW", "xnofollowx", "tag noopener", "notnoopenerx noreferrer", ""]) +
              av("target", ["_blank", "_top"]))
     return dict(name="link", recipes=recipes, tokens=[], attrs={"a": alpha, "area": alpha, "link": alpha})
@@ -136,7 +140,7 @@ URLS = ["http://example.org/a?b=1&c=2", "https://e.com", "/rel/path", "#frag", "
         "http://u:p@example.org/", "\x01javascript:alert(1)", "x:y", "?q=1", "http://example.com/\u00e9",
         " http://example.org/lead", "https://e.com/trail\n", "data:image/png;base64,iVBO\nRw0KGgo=",
         "https:opaque.example/p.gif", "httpx://e.com/", "a b", "x\ty", "/caf\u00e9/menu", "http://e.com/%zz",
-        "/p?a\u00a0#", "?q\u2003#"]     # Unicode white space in front of an empty fragment
+        "/p?a\u00a0#", "?q\u2003#", "http://e.com/?a=1&amp;amp;b=2"]     # Unicode white space in front of an empty fragment
 
 def fam_url():
     """C03: every listed URL position x the URL catalogue x scheme allowlists / custom checks / relative / rewriter."""
@@ -164,6 +168,7 @@ def fam_url():
         [call("NewPolicy"), call("AllowElements", names=sorted(els)), AA(["href", "cite", "src"], []), call("AllowURLSchemes", schemes=["http", "https"])],
         base + [call("AllowRelativeURLs", b=True)],
         base + [call("RequireParseableURLs", b=True)],
+        base + [call("AllowURLSchemes", schemes=["http"]), call("RewriteSrc", fid=prox)],     # the rewriter's own output is not a URL the policy admits
     ]
     attrs = {el: av(k, URLS) + av("class", ["k"]) for el, k in els.items()}
     return dict(name="url", recipes=recipes, tokens=[], attrs=attrs)
@@ -204,10 +209,11 @@ def fam_forced():
     recipes.append(base + [call("RequireSandboxOnIFrame", vals=["allow-popups-to-escape-sandbox"])])
     # script is emitted only under AllowUnsafe: it is one of the five elements the crossorigin clause names
     recipes.append(base + [call("AllowUnsafe", b=True), call("RequireCrossOriginAnonymous", b=True)])
+    recipes.append(base + [call("AllowDataURIImages"), call("AllowRelativeURLs", b=True), call("RequireCrossOriginAnonymous", b=True)])
     alpha = (av("crossorigin", ["anonymous", "use-credentials", ""]) +
              av("sandbox", ["allow-forms", "allow-forms allow-forms", "allow-scripts bogus\tallow-forms", "", "ALLOW-FORMS",
                             "allow-popups allow-popups-to-escape-sandbox"]) +
-             av("src", ["/x"]) + av("class", ["k"]) + av("onclick", ["x"]))
+             av("src", ["/x", "data:image/png;base64,iVBORw0KGgo="]) + av("class", ["k"]) + av("onclick", ["x"]))
     return dict(name="forced", recipes=recipes, tokens=[], attrs={e: alpha for e in els})
 
 def fam_allow():
@@ -221,6 +227,7 @@ def fam_allow():
             AA(["lang"], ["custom-x"]), call("AllowElements", names=["B"]), AA(["href"], ["a"]),
             AA(["style"], ["span"])]
     recipes = [base, base + [call("AllowDataAttributes")],
+               base + [call("AllowAttrs", attrs=["rev", "onclick"], scope="els", els=[])],   # OnElements() with no element: allows nothing anywhere
                base + [AA(["class"], ["span"]), AA([], ["a"], noattrs=True),
                        call("AllowStyles", props=["color"], scope="els", els=["b"])],   # style rules for ANOTHER element only
                [call("NewPolicy"), AA(["class", "title"], pat=".*", match=lower), call("AllowElementsMatching", pat="^b")]]
@@ -237,7 +244,7 @@ STYLES = ["color: red", "color: red; background: url(javascript:alert(1))", "COL
           "background-image: url('http://e.com/a;b.png')", "/* c */ color: blue", "color", "color: r\\65 d",
           "font-family: \\110000 x", "color: re\\20 d", "font-size: 12px; color: blue; width: 1px", "-moz--webkit-color: red", "",
           "color: r\\65D", "color: b\\6Cue", "width: 1px", "COLOR: \\52 ED", "width: red", "color: #fff",
-          "color: \\5c 72 ed"]      # an escape that decodes to a backslash in front of hex digits: decoded once, never rescanned
+          "color: \\5c 72 ed", "color: r\\0 ed", " ", "color: red; "]      # an escape that decodes to a backslash in front of hex digits: decoded once, never rescanned
 
 def fam_style():
     """C10: style rules at the three scopes with the four matcher kinds."""
@@ -253,6 +260,8 @@ def fam_style():
                 AS(["color"], "pat", pat="^sp", enum="e:green")],
         base + [AS(["nosuchprop", "color"], "els", els=["span"])],
         base + [AS(["color"], "els", els=["span"], enum="e:Red|BLUE"), AS(["text-align"], "glob", enum="e:Center")],   # enumerations compare case-insensitively
+        # an element with style rules of its own AND matched by a pattern that carries rules for another property: own rules win
+        base + [AS(["color"], "els", els=["custom-x"]), AS(["width"], "pat", pat="^custom-")],
         # elements allowed by name only, no attribute rule anywhere: the style attribute lives on the style rules alone
         [call("NewPolicy"), call("AllowElements", names=["span", "p"]), AS(["color"], "els", els=["span"]), AS(["width"], "pat", pat="^p$")],
         base,
@@ -272,7 +281,7 @@ def fam_conf():
     lower = "re:^[a-z]+$"
     base = [call("NewPolicy"), call("AllowElements", names=["b", "p"]), AA(["href", "rel"], ["a"]), AA(["src", "alt"], ["img"]),
             AA(["class"], [], match=lower), AA(["class"], ["p"], match="re:^[0-9]+$"),
-            AA(["title"], pat="^custom-", noattrs=True), AA(["cite"], ["q"])]
+            AA(["title"], pat="^custom-", noattrs=True), AA(["cite"], ["q"]), AA(["lang"], pat="^custom-")]
     recipes = [
         base,
         base + [call("AllowStandardURLs")],
@@ -288,7 +297,7 @@ def fam_conf():
             tok("start", "img", (("src", "/i.png"), ("alt", "x y"))), tok("start", "img", (("src", "HTTP://E.com/%7e"),)),
             tok("start", "custom-x"), tok("start", "custom-x", (("title", "t"), ("class", "k"))), tok("end", "custom-x"),
             tok("start", "q", (("cite", "http://e.com/x"),)), tok("end", "q"),
-            tok("start", "blink"), tok("self", "b"), tok("start", "b", (("data-x", "1"),)), tok("self", "custom-x"),
+            tok("start", "blink"), tok("self", "b"), tok("start", "b", (("data-x", "1"),)), tok("self", "custom-x"), tok("start", "custom-x", (("lang", "en"),)),
             tok("text", d="t&<x"), tok("text", d="a\rb"), tok("text", d="\ufeff\ufeffy"), tok("comment", d="cmt")]
     return dict(name="conf", recipes=recipes, tokens=toks)
 
@@ -307,7 +316,8 @@ def fam_ugc():
             tok("start", "script"), tok("end", "script"), tok("start", "style"), tok("end", "style"), tok("self", "script"),
             tok("self", "input", (("id", "i"), ("type", "image"))), tok("self", "form", (("id", "f"),)), tok("self", "button"), tok("self", "meta", (("id", "m"),)),
             tok("self", "iframe", (("id", "x"), ("src", "http://e.com"))),
-            tok("start", "a", (("href", "http://e.com/"), ("xml:href", js))), tok("start", "p", (("xml:lang", "en"), ("xml:id", "i"))),   # prefixed spellings of allowed names
+            tok("start", "a", (("href", "http://e.com/"), ("xml:href", js))), tok("start", "p", (("xml:lang", "en"), ("xml:id", "i"))),
+            tok("start", "a", (("href", "java script:x"), ("href", js))), tok("start", "img", (("src", "/i.png"), ("srcset", "data:text/html,x 1x"))),   # prefixed spellings of allowed names
             tok("start", "iframe", (("src", "http://e.com"),)), tok("end", "iframe"), tok("start", "object"), tok("end", "object"),
             tok("start", "svg"), tok("start", "math"), tok("start", "form"), tok("start", "input", (("type", "image"), ("src", js))),
             tok("start", "base", (("href", "//x"),)), tok("start", "meta"), tok("start", "link", (("rel", "stylesheet"), ("href", "x"))),
@@ -326,6 +336,7 @@ def fam_policy():
         AA(["class"], pat="-y$"),      # overlaps ^custom- on custom-y: an element reached through two patterns gets the union
         AA([], ["A"], noattrs=True), AA(["href"], ["a"]),
         AS(["color"], "glob"), AS(["COLOR"], "els", els=["Span"], enum="e:red|blue"),
+        AS(["color"], "glob", re="r:^#[0-9a-f]{3}$"),     # a second global rule for the same property, with a matcher
         call("AllowElementsMatching", pat="^x-"),
         call("AllowURLSchemes", schemes=["HTTP"]), call("AllowURLSchemes", schemes=["mailto", "http"]),
         call("AllowURLSchemeWithCustomPolicy", scheme="Http", fid=hx), call("AllowURLSchemesMatching", pat="^(ftp|tel)$"),
@@ -348,7 +359,7 @@ def fam_policy():
 def fam_policy3():
     """C17, histories of three calls: a reduced call alphabet (case variants, overlapping patterns, toggles, zero-value start)."""
     f = fam_policy()
-    keep = [0, 2, 3, 4, 6, 7, 8, 9, 11, 13, 15, 17, 18, 23, 25, 26]
+    keep = [0, 2, 3, 4, 6, 7, 8, 9, 11, 12, 14, 16, 18, 19, 24, 26, 27]
     f["calls"] = [f["calls"][i] for i in keep]
     f["ctorpairs"] = [f["ctorpairs"][1], f["ctorpairs"][2]]
     f["name"] = "policy3"
@@ -371,6 +382,8 @@ def fam_io():
         dict(blank=False, toks=[T("just text & more")]),
         dict(blank=True, toks=[T(" \n\t ")]),
         dict(blank=True, toks=[]),
+        dict(blank=True, toks=[T("\r\n\u00a0 \x0b\r")]),      # white space beyond the HTML set, with carriage returns: returned unchanged
+        dict(blank=True, toks=[T("\u2028\r\u3000")]),
         dict(blank=False, toks=[tok("start", "a"), tok("start", "img"), tok("end", "a"), tok("self", "b"), tok("start", "b"), tok("end", "b"), T("\u00e9\u4e2d")]),
         dict(blank=False, toks=[tok("start", "b"), T("x"), tok("end", "b"), T("y" * 5000), tok("start", "b"), tok("end", "b")]),
         # a byte order mark is character data like any other: every entry point and every chunking must treat it alike
@@ -393,11 +406,15 @@ def fam_conc():
             call("AllowIFrames", vals=["allow-forms", "allow-scripts", "allow-popups"]), call("AllowURLSchemesMatching", pat="^(ftp|tel)$")]
     # URL checking on, a scheme admitted only through a scheme pattern (a verdict the library might be tempted to remember)
     schemes = [call("NewPolicy"), AA(["href"], ["a"]), call("AllowURLSchemes", schemes=["http"]), call("AllowURLSchemesMatching", pat="^(ftp|tel)$")]
-    recipes = [[call("UGCPolicy"), call("AllowComments")], pats, [call("StrictPolicy")], opts, schemes]
+    handlers = [call("NewPolicy"), call("AllowElements", names=["span", "p"]), AS(["color"], "els", els=["span"], handler="h:verifharness/h.StyleHNoParen"),
+                AS(["color"], "els", els=["p"]), AS(["border", "font", "background"], "glob")]
+    recipes = [[call("UGCPolicy"), call("AllowComments")], pats, [call("StrictPolicy")], opts, schemes, handlers]
     T = lambda d: tok("text", d=d)
     docs = [
         dict(toks=[tok("start", "iframe", (("sandbox", "allow-scripts allow-forms allow-scripts allow-popups allow-forms"),)), tok("end", "iframe"),
                    tok("start", "a", (("href", "x y"),)), T("l"), tok("end", "a")]),
+        dict(toks=[tok("start", "span", (("style", "color: rgb(1,2,3); border: 1px solid red"),)), T("s"), tok("end", "span")]),
+        dict(toks=[tok("start", "p", (("style", "color: rgb(1,2,3); font: italic bold 12px serif"),)), T("p"), tok("end", "p")]),
         dict(toks=[tok("start", "a", (("href", "ftp://f/x"),)), T("f"), tok("end", "a"), tok("start", "a", (("href", "tel:+1"),)), T("t"), tok("end", "a")]),
         dict(toks=[tok("start", "custom-x", (("class", "abc"), ("style", "color: green; font-size: 12px"))), T("one"), tok("end", "custom-x")]),
         dict(toks=[tok("start", "object"), T("hidden"), tok("end", "object")]),
@@ -446,9 +463,18 @@ def fam_nestw():
     base = [call("NewPolicy"), call("AllowElements", names=["b"]), AA(["href"], ["a"]), AA(["title"], ["font"])]
     recipes = [base, base + [call("AddSpaceWhenStrippingTag", b=True), call("SkipElementsContent", names=["span"])]]
     toks = [tok("start", "a"), tok("start", "a", (("href", "/x"),)), tok("end", "a"), tok("start", "b"), tok("end", "b"),
-            tok("start", "font"), tok("end", "font"), tok("start", "object"), tok("end", "object"),
+            tok("start", "font"), tok("start", "font", (("title", "t"),)), tok("end", "font"), tok("start", "object"), tok("end", "object"),
             tok("start", "span"), tok("end", "span"), tok("start", "br"), tok("text", d="txt")]
     return dict(name="nestw", recipes=recipes, tokens=toks, wellnested=True)
+
+def fam_nestf():
+    """Same-name nesting in depth: one element that is dropped without attributes and kept with one, one kept container, text
+    (well-nested documents only, which lets the exploration reach nine tokens)."""
+    base = [call("NewPolicy"), call("AllowElements", names=["b"]), AA(["title"], ["font"])]
+    recipes = [base, base + [call("AddSpaceWhenStrippingTag", b=True), call("SkipElementsContent", names=["font"])]]
+    toks = [tok("start", "font"), tok("start", "font", (("title", "t"),)), tok("end", "font"), tok("start", "b"), tok("end", "b"),
+            tok("start", "object"), tok("end", "object"), tok("text", d="txt")]
+    return dict(name="nestf", recipes=recipes, tokens=toks, wellnested=True)
 
 def fam_nestx():
     """Well-nested documents over raw-text, unsafe, skip-set and pattern elements: how the skip flag, the closing-tag stack and
@@ -482,7 +508,8 @@ def fam_nesty():
             tok("start", "lit", (("class", "k"),)), tok("end", "lit"), tok("start", "split", (("class", "k"),)), tok("end", "split"),
             tok("start", "my-box", (("style", "color: red"),)), tok("end", "my-box"),
             tok("start", "custom-x"), tok("end", "custom-x"), tok("start", "object"), tok("end", "object"),
-            tok("start", "xa"), tok("end", "xa"), tok("text", d="<i a=1>t&<x")]
+            tok("start", "xa"), tok("end", "xa"), tok("start", "cu\u017ftom-x", (("class", "k"),)), tok("end", "cu\u017ftom-x"),
+            tok("text", d="<i a=1>t&<x")]
     return dict(name="nesty", recipes=recipes, tokens=toks, wellnested=True)
 
 def fam_refine():
@@ -510,7 +537,7 @@ def fam_refine():
     toks += [tok("text", d="t"), tok("comment", d="c"), tok("doctype", d="html")]
     return dict(name="refine", recipes=recipes, tokens=toks)
 
-FAMS = dict(policy3=fam_policy3, refine=fam_refine, nesty=fam_nesty, urldup=fam_urldup, nestx=fam_nestx, nestw=fam_nestw, nest=fam_nest, css=fam_css, conc_zero=fam_conc_zero, conc=fam_conc, io=fam_io, policy=fam_policy, ugc=fam_ugc, conf=fam_conf, loop=fam_loop, loopq=fam_loopq, link=fam_link, url=fam_url, forced=fam_forced, allow=fam_allow, style=fam_style)
+FAMS = dict(nestf=fam_nestf, policy3=fam_policy3, refine=fam_refine, nesty=fam_nesty, urldup=fam_urldup, nestx=fam_nestx, nestw=fam_nestw, nest=fam_nest, css=fam_css, conc_zero=fam_conc_zero, conc=fam_conc, io=fam_io, policy=fam_policy, ugc=fam_ugc, conf=fam_conf, loop=fam_loop, loopq=fam_loopq, link=fam_link, url=fam_url, forced=fam_forced, allow=fam_allow, style=fam_style)
 
 if __name__ == "__main__":
     here = os.path.dirname(os.path.abspath(__file__))
